@@ -121,6 +121,11 @@ Definition hs_conv (cv : curve) (ls_i ie ls_r re : Noise.bytes) (msgs : list (bo
   | Some (s, n, ti, tr) => (s, n, flat (run_conv ti tr msgs))
   | None => (["HANDSHAKE-FAILED"], [], ([], []))
   end.
+Definition hs_conv_gen (cv : curve) (ls_i ie ls_r re : Noise.bytes) (msgs : list (bool * (Z * Z))) :=
+  match run_handshake cv ls_i ie ls_r re with
+  | Some (s, n, ti, tr) => (s, n, flat (run_conv_gen ti tr msgs))
+  | None => (["HANDSHAKE-FAILED"], [], ([], []))
+  end.
 Definition st_conv (sk : Noise.bytes) (sn : Z) (sck rk : Noise.bytes) (rn : Z) (rck : Noise.bytes) (msgs : list (bool * Noise.bytes)) :=
   flat (run_conv (mk_tr sk sn sck rk rn rck) (mk_tr rk rn rck sk sn sck) msgs).
 Definition show_opt_act (r : option (option (Noise.bytes * enc_state))) : string :=
@@ -236,17 +241,26 @@ def cipher_level(ctx, model_ok):
         plan.append(("hs", keys))
         ms = []
         szs = list(sizes) if i % 2 == 0 else [rng.choice([0, 1, 2, 3, 5, 17, 31, 32, 33, 63, 64, 65, 255, 1000]) for _ in range(6)]
-        if not quick and i == 1:
-            szs = [65535, 65534, 2]
+        gen = (not quick) and i == 1
+        if gen:
+            szs = [65535, 65534, 2, 30000]
         if quick and i == 1:
             szs = szs[:4] + [4097]
         for s in szs:
             d = rng.below(2)
-            m = rand_hex(rng, s)
-            ms.append((d, m))
-            lines.append("msg %d %s" % (d, m))
-            plan.append(("msg", (d, m)))
-        convs.append((keys, ms))
+            if gen:
+                # maximal sizes: generated payload on both sides, digests compared (a 130 kB literal
+                # overflows coqc's stack)
+                sd = rng.below(2 ** 32)
+                ms.append((d, (s, sd)))
+                lines.append("msgn %d %d %d 0" % (d, s, sd))
+                plan.append(("msg", (d, "gen")))
+            else:
+                m = rand_hex(rng, s)
+                ms.append((d, m))
+                lines.append("msg %d %s" % (d, m))
+                plan.append(("msg", (d, m)))
+        convs.append((keys, ms, gen))
     # rotation windows from synthetic transport states
     rot = ctx.consts["ROT_SEND"] if hasattr(ctx, "consts") else 1000
     wins = []
@@ -306,14 +320,18 @@ def cipher_level(ctx, model_ok):
     if model_ok:
         exprs, keys_of = [], []
         idx = 0
-        for (keys, ms) in convs:
+        for (keys, ms, gen) in convs:
             # curve facts come from the implementation's own output
             while impl[idx][0][0] != "hs":
                 idx += 1
             f = fields(impl[idx][2])
             idx += 1
             cv = curve_expr(f["pubs"], f["dh"], f["valid"])
-            exprs.append("hs_conv %s (%s) (%s) (%s) (%s) %s" % (cv, B(keys[0]), B(keys[1]), B(keys[2]), B(keys[3]), msgs_expr(ms)))
+            if gen:
+                me = "[" + "; ".join("(%s, (%d, %d))" % ("true" if d == 0 else "false", ln, sd) for d, (ln, sd) in ms) + "]"
+                exprs.append("hs_conv_gen %s (%s) (%s) (%s) (%s) %s" % (cv, B(keys[0]), B(keys[1]), B(keys[2]), B(keys[3]), me))
+            else:
+                exprs.append("hs_conv %s (%s) (%s) (%s) (%s) %s" % (cv, B(keys[0]), B(keys[1]), B(keys[2]), B(keys[3]), msgs_expr(ms)))
         for (ks, sn, rn, ms) in wins:
             exprs.append("st_conv (%s) %d (%s) (%s) %d (%s) %s" % (B(ks[0]), sn, B(ks[1]), B(ks[2]), rn, B(ks[3]), msgs_expr(ms)))
         t0 = time.time()
@@ -322,7 +340,7 @@ def cipher_level(ctx, model_ok):
         # compare
         pos = 0
         n_ops = 0
-        for ci, (keys, ms) in enumerate(convs):
+        for ci, (keys, ms, gen) in enumerate(convs):
             while impl[pos][0][0] != "hs":
                 pos += 1
             f = fields(impl[pos][2])
@@ -340,8 +358,10 @@ def cipher_level(ctx, model_ok):
                 f = fields(impl[pos][2])
                 pos += 1
                 n_ops += 1
+                if gen and "ch" in f:
+                    f["c"], f["m"] = f["ch"], f["mh"]
                 if not all(k in f for k in ("a", "b", "c", "m", "len")):
-                    dis.append({"topic": "transport message", "keys": keys, "index": j, "dir": d, "msg": m[:80], "impl": impl[pos - 1][2][:200], "model": [x[:80] for x in ss[10 * j:10 * j + 2]]})
+                    dis.append({"topic": "transport message", "keys": keys, "index": j, "dir": d, "msg": str(m)[:80], "impl": impl[pos - 1][2][:200], "model": [x[:80] for x in ss[10 * j:10 * j + 2]]})
                     pos += len(ms) - j - 1
                     break
                 a_k, a_n = st_tuple(f["a"])
@@ -350,7 +370,7 @@ def cipher_level(ctx, model_ok):
                 want_z = [int(f["len"])] + a_n + b_n
                 got_s, got_z = ss[10 * j:10 * j + 10], zz[5 * j:5 * j + 5]
                 if got_s != want_s or got_z != want_z:
-                    dis.append({"topic": "transport message", "keys": keys, "index": j, "dir": d, "msg": m[:80], "impl": [x[:80] for x in want_s] + want_z, "model": [x[:80] for x in got_s] + got_z})
+                    dis.append({"topic": "transport message", "keys": keys, "index": j, "dir": d, "msg": str(m)[:80], "impl": [x[:80] for x in want_s] + want_z, "model": [x[:80] for x in got_s] + got_z})
                     break
         for wi, (ks, sn, rn, ms) in enumerate(wins):
             while impl[pos][0][0] != "st":
@@ -391,6 +411,10 @@ def corrupt_level(ctx, model_ok):
         ctx.violation("harness h_noise failed in the corruption set-up", {"broken": "correspondence:h_noise", "rc": rc}, False)
         return None, None, {}
     f0 = fields(out[0])
+    if "a" not in fields(out[1]) or "a" not in fields(out[2]) or "acts" not in f0:
+        # the real encryptor pair cannot even exchange two messages: nothing to corrupt
+        setup = "hs %s %s %s %s" % keys
+        return [], [{"kind": "message not delivered intact by the real encryptor pair", "input": setup + "\n" + "msg 0 aabbccdd\nmsg 0 0011", "impl": (out[1] + " / " + out[2])[-200:]}], {}
     acts = f0["acts"].split(",")
     pub = dict(x.split(":") for x in f0["pubs"].split(";"))
     old_frame = fields(out[1])["c"]
@@ -536,6 +560,7 @@ def corrupt_level(ctx, model_ok):
 # ----------------------------------------------------------------- PeerManager level
 INIT = "001000000000"
 KNOWN_CHAN = {36, 38, 17}
+NO_MODEL = {"max"}   # 130 kB literals overflow coqc's stack: implementation-side judge only
 
 
 def observable(m):
@@ -751,7 +776,7 @@ def pm_level(ctx, model_ok):
         if name.startswith("honest") and (("err" in res) or msgs_seen != exp_all):
             fails.append({"kind": "an honest stream was not delivered (%s)" % name, "input": line[:600], "delivered": len(msgs_seen), "expected": len(exp_all), "replay_cmd": rep})
         # --- model prediction for the same bytes and the same fragmentation
-        if model_ok and not j["panic"]:
+        if model_ok and not j["panic"] and name not in NO_MODEL:
             cv = curve_expr(j["pubs"], j["dh"], j["valid"])
             dtbl, ib, hb = [], [], []
             for m in frames:
@@ -863,16 +888,25 @@ def run(ctx):
     ]
     ctx.assumptions += ["ECDH symmetry / key encoding laws (handshake)", "ciphertext integrity of ChaCha20-Poly1305 (tamper theorem premise)",
                         "SocketDescriptor::send_data returns at most the length offered (trait contract)"]
-    res = {}
-    t0 = time.time()
-    c = cipher_level(ctx, okm)
-    ctx.timed("cipher_level_s", time.time() - t0)
-    t0 = time.time()
-    k = corrupt_level(ctx, okm)
-    ctx.timed("corrupt_level_s", time.time() - t0)
-    t0 = time.time()
-    p = pm_level(ctx, okm)
-    ctx.timed("pm_level_s", time.time() - t0)
+    internal = []
+
+    def level(name, fn):
+        # a level that cannot even be evaluated is a broken correspondence, not a crash of the check:
+        # the other levels (and their judges) still run
+        t0 = time.time()
+        try:
+            r = fn(ctx, okm)
+        except Exception as ex:  # noqa: BLE001
+            import traceback
+            internal.append({"level": name, "exception": repr(ex), "trace": traceback.format_exc()[-1500:]})
+            ctx.log("level %s could not be evaluated: %r" % (name, ex))
+            r = None
+        ctx.timed(name + "_level_s", time.time() - t0)
+        return r
+
+    c = level("cipher", cipher_level)
+    k = level("corrupt", corrupt_level)
+    p = level("pm", pm_level)
     dis, fails = [], []
     for name, r in (("cipher", c), ("corrupt", k), ("pm", p)):
         if r is None or r[0] is None:
@@ -897,12 +931,15 @@ def run(ctx):
         broken.append({"obligation": "Coq proof of Props/C15.v", "detail": getattr(ctx, "proof_failure", None)})
     if dis:
         broken.append({"correspondence": "model vs implementation", "first_disagreements": dis[:4], "n": len(dis)})
+    if internal:
+        broken.append({"correspondence": "a correspondence level could not be evaluated", "detail": internal})
     if fails:
         seen = set()
         for f in fails:
-            if f["kind"] in seen:
+            cls = re.sub(r"\d+", "N", f["kind"])
+            if cls in seen:
                 continue
-            seen.add(f["kind"])
+            seen.add(cls)
             if len(seen) > 3:
                 break
             ctx.violation("C15 fails on the implementation: " + f["kind"], {"broken": broken, "failing_input": f}, True)
